@@ -1,5 +1,5 @@
 import string
-from typing import Union
+from typing import Any, Union
 
 from flamapy.core.models.ast import ASTOperation, Node
 from flamapy.core.transformations import ModelToText
@@ -93,14 +93,28 @@ class UVLWriter(ModelToText):
         for attribute in feature.get_attributes():
             attribute_str = safename(attribute.name)
             if attribute.default_value is not None:
-                if isinstance(attribute.default_value, str):
-                    attribute_str += f" '{attribute.default_value}'"
-                elif isinstance(attribute.default_value, bool):
-                    attribute_str += f" {str(attribute.default_value).lower()}"
-                else:
-                    attribute_str += f" {attribute.default_value}"
+                attribute_str += f" {cls.serialize_value(attribute.default_value)}"
             attributes.append(attribute_str)
         return f'{{{", ".join(attributes)}}}' if attributes else ""
+
+    @classmethod
+    def serialize_value(cls, value: Any) -> str:
+        if isinstance(value, str):
+            result = f"'{value}'"
+        elif isinstance(value, bool):
+            result = str(value).lower()
+        elif isinstance(value, (list, tuple)):
+            result = f'[{", ".join(cls.serialize_value(v) for v in value)}]'
+            if len(value) == 1 and isinstance(value[0], int) and not isinstance(value[0], bool):
+                # '[1]' would be tokenized as a cardinality
+                result = f'[ {value[0]} ]'
+        elif isinstance(value, dict):
+            entries = [safename(str(k)) if v is None else f'{safename(str(k))} {cls.serialize_value(v)}'
+                       for k, v in value.items()]
+            result = f'{{{", ".join(entries)}}}'
+        else:
+            result = str(value)
+        return result
 
     @staticmethod
     def serialize_relation(rel: Relation) -> str:
